@@ -495,6 +495,18 @@ def try_replay(c, model, rep):
         _REPLAY_CACHE[key] = run_native(code, timeout=120)
     res = _REPLAY_CACHE[key]
     rep['replay_code'] = code
+    # a failure that is exactly a recorded known finding (of any property) is not a failing input for THIS obligation
+    known_keys = [p for k in load_all_known() if k.get('status') == 'known' for p in k.get('bounded_keys', [])]
+    fl = res.get('failures')
+    if isinstance(fl, list) and fl and all(isinstance(f, dict) for f in fl):
+        new = [f for f in fl if not any(p in str(f.get('key', '')) for p in known_keys)]
+        if len(new) != len(fl):
+            res = dict(res, failures=new, fails=bool(new), known_failures_ignored=[f.get('key') for f in fl if f not in new])
+            if new:
+                res.update(input=new[0].get('input'), observed=new[0].get('observed'), required=new[0].get('required'))
+            else:
+                for k_ in ('input', 'observed', 'required'):
+                    res.pop(k_, None)
     rep['replay_result'] = res
     return bool(res.get('fails'))
 
